@@ -196,4 +196,33 @@ def VCfg.mapF {α : Type} (F : α → α) (c : VCfg α) : VCfg α :=
 def PMove.mapF {α : Type} (F : α → α) : PMove α → PMove α
   | .recv e => .recv (F e) | .take => .take | .deliver => .deliver
 
+/-! ### a backpressured subscriber (no lossy stage) -/
+
+/-- `Pull(WithBackpressure(true))`: the forwarder ranges over the bus listener's unbuffered channel
+itself, so `Bus.Send` can hand an event over only while the forwarder is back at its receive, i.e. holds
+nothing; `offer e` is the writer's attempt (`accepted` records the ones that went through — an attempt
+while the forwarder holds an event leaves everything as it is: the writer keeps waiting). -/
+structure BCfg (α : Type) where
+  inHand : Option α
+  delivered : List α
+  accepted : List α
+
+def BCfg.init {α : Type} : BCfg α := ⟨none, [], []⟩
+
+inductive BMove (α : Type) where
+  | offer (e : α)
+  | deliver
+
+def bstep {α : Type} (c : BCfg α) : BMove α → BCfg α
+  | .offer e =>
+    match c.inHand with
+    | none => { c with inHand := some e, accepted := c.accepted ++ [e] }
+    | some _ => c
+  | .deliver =>
+    match c.inHand with
+    | some d => { c with inHand := none, delivered := c.delivered ++ [d] }
+    | none => c
+
+def brun {α : Type} (c : BCfg α) (ms : List (BMove α)) : BCfg α := ms.foldl bstep c
+
 end ScVerif.C09
